@@ -262,6 +262,9 @@ DoStart(ev) ==
            \cup Lbl({"C05"}, "budget", (K > 0 => Cardinality(w.finFail) < K) /\ w.intr = {})
            \cup Lbl({"C18"}, "outside-closure", s \in W(g))
            \cup Lbl({"C16"}, "cmd", ev.cmd = g.steps[s].cmd /\ rspok /\ ~IsPhony(g, s))
+           \* the directories of the outputs exist when the command is started (judged at the
+           \* start: a concurrent command may remove them afterwards, which is not n2's doing)
+           \cup Lbl({"C16"}, "outdir", ev.dirsok)
            \cup Lbl({"C17"}, "phase-order", p17)
            \cup Lbl({"CONF"}, "state", StOf(s) = "Running")
       cov == BumpIf(BumpIf(BumpIf(BumpIf(Bump(w.cov, "start"),
@@ -282,7 +285,6 @@ DoFinish(ev) ==
       manif2 == IF gen THEN (ev.notes.gen.name :> ev.notes.gen.g) @@ w.manif ELSE w.manif
       deps == DiscoveredFrom(g, s, ev.reported)
       v == Lbl({"CONF"}, "not-running", s \in w.run)
-           \cup Lbl({"C16"}, "outdir", ev.dirsok)
            \cup Lbl({"C16"}, "rspfile-disk",
                   ("rspdisk" \in DOMAIN ev /\ s \in StepIds(g) /\ g.steps[s].hasrsp)
                      => ev.rspdisk = g.steps[s].rspc)
@@ -441,8 +443,14 @@ DoEnd(ev) ==
       vexit == (IF loaded THEN OwedLbl ELSE {})
                \cup Lbl({"CONF"}, "exit-pending", (loaded /\ ok) => w.iv.pending = 0)
                \cup Lbl({"CONF"}, "exit-consistent", loaded => SchedConsistent(g, w.iv))
+      \* C18: builddir (and -f) select where the log lives and nothing else: after an invocation
+      \* that got as far as loading, the only build log is the one in the declared builddir
+      bdir == IF "builddir" \in DOMAIN g THEN g.builddir ELSE ""
+      vlog == Lbl({"C18"}, "log-location",
+                  (loaded /\ "dbat" \in DOMAIN ev) =>
+                     Range(ev.dbat) = {IF bdir = "" THEN ".n2_db" ELSE bdir \o "/.n2_db"})
       vdead == Lbl({"C06"}, "hang", ev.dead \notin {"hang", "livelock"})
-  IN [w EXCEPT !.viol = IF dead THEN @ \cup vdead ELSE @ \cup v \cup vexit,
+  IN [w EXCEPT !.viol = IF dead THEN @ \cup vdead ELSE @ \cup v \cup vexit \cup vlog,
                !.cov = IF dead THEN @ ELSE cov,
                !.inInv = FALSE, !.lastOk = (~dead /\ ok),
                !.lastSum = <<ev.summary, IF ev.summary = "ran" THEN ev.n ELSE 0>>,
